@@ -128,6 +128,13 @@ impl FxTracker {
             });
         }
 
+        if cad_fxt.amount.is_zero() || other_fxt.amount.is_zero() {
+            return Err(SheetParseError::new(
+                fxt_row.row_num,
+                String::from("FXT amount was zero"),
+            ));
+        }
+
         let rate = (cad_fxt.amount / other_fxt.amount).abs();
 
         let tx = FxTracker::fx_tx(
